@@ -126,8 +126,8 @@ func compositions(n int) [][]int {
 // ---- level 2: through the handler chain
 
 type c14svc struct {
-	reqBuf, respBuf  bool
-	M, Lreq, Lresp   int64
+	reqBuf, respBuf bool
+	M, Lreq, Lresp  int64
 }
 
 func (s c14svc) host(i int) string { return fmt.Sprintf("b%d.example.com", i) }
@@ -224,12 +224,12 @@ func c14Responder(req *http.Request, body []byte) *memnet.Response {
 }
 
 type c14in struct {
-	svc      int
-	reqLen   int
-	reqPat   string // one | bytes | split
-	respLen  int
-	respPat  string
-	kind     string // plain | sse | upgrade | cut | abort-upload | abort-wait
+	svc     int
+	reqLen  int
+	reqPat  string // one | bytes | split
+	respLen int
+	respPat string
+	kind    string // plain | sse | upgrade | cut | abort-upload | abort-wait
 }
 
 func (c c14in) name() string {
